@@ -28,7 +28,7 @@ taken before the call.
                    'dy']) or the trace arguments change (wavelength with a dispersive index, n_ambient), or it is simply traced
                    many times; the later trace is judged by the full pass oracle with the new attributes and must equal the trace
                    through a fresh Surface built with the same attributes
-  A repeat         the same ray arrays passed again, rays as F-ordered / strided / read-only arrays, lists, tuples; the history
+  A repeat         the same ray arrays passed again, rays as F-ordered / strided / read-only arrays; the history
                    arrays of an earlier trace edited by the caller; intersect / reflect / refract called twice with the same
                    arrays; one position vector handed to two Surface constructors
   C configuration  config.precision = 32 (surfaces store P and R as float32) with float32 and float64 rays, float32 rays under
@@ -55,7 +55,7 @@ RULE = ('one case = one prescription (1-4 surfaces) + one ray bundle; surface fa
         'collimated grid, random skew rays and steep rays (30-40 deg); rays are aimed at points inside the aperture so '
         'they geometrically hit; a case is non-trivial when at least one ray was decided by a law monitor; '
         'distinct = distinct descriptor (classes + parameters + sub-seed).  Hardening workloads: surface histories (13 kinds of '
-        'change x 5 families, second trace aimed at the surface in its new frame), ray forms (8 forms x 5 families), '
+        'change x 5 families, second trace aimed at the surface in its new frame), ray forms (6 forms x 5 families), '
         'configuration (4 phases per prescription), regimes (long prescriptions, extreme curvature / conic constant)')
 ASSUMPTIONS = ['the surface is the graph z = sag(x,y) of the library\'s own sag routine in the surface frame; for plane / '
                'sphere / conic / off-axis conic that sag is additionally required to equal the textbook conic formula '
@@ -1293,8 +1293,8 @@ def history_case(ctx, idx, family, change):
     ctx.case(desc, nontrivial=decided > 0)
 
 
-RAY_FORMS = ['same-objects-again', 'F-order', 'strided-view', 'list', 'tuple-of-rows', 'read-only', 'result-edited-by-caller',
-             'shared-P-array-two-surfaces']
+# (the documented type of P and S is ndarray: lists / tuples are accepted today through np.asarray but are not demanded)
+RAY_FORMS = ['same-objects-again', 'F-order', 'strided-view', 'read-only', 'result-edited-by-caller', 'shared-P-array-two-surfaces']
 
 
 def _ray_form(P, form):
@@ -1458,7 +1458,7 @@ def run(ctx):
 def _run(ctx):
     # configuration first: its 32-bit phase must precede every 64-bit use of the same prescriptions in this process
     combos = [(f, w, fo) for f in FAMILIES for w in WAYS for fo in FORMS]
-    for i in range(ctx.pick(40, 3000)):
+    for i in range(ctx.pick(40, 2000)):
         if ctx.mine(i):
             f, w, fo = combos[(i * 7) % len(combos)]
             precision_case(ctx, i, f, w, fo)
@@ -1476,7 +1476,7 @@ def _run(ctx):
                 i += 1
                 if ctx.mine(i):
                     repeat_case(ctx, i, f, form_ray)
-    reps = ctx.pick(8, 200)
+    reps = ctx.pick(8, 150)
     combos = [(f, w, fo) for f in FAMILIES for w in WAYS for fo in FORMS]
     i = -1
     for rep in range(reps):
@@ -1494,7 +1494,7 @@ def _run(ctx):
     for i in range(ctx.pick(80, 4000)):
         if ctx.mine(i):
             rigid_case(ctx, i)
-    for i in range(ctx.pick(200, 8000)):
+    for i in range(ctx.pick(200, 6000)):
         if ctx.mine(i):
             multi_surface_case(ctx, i)
     for i in range(ctx.pick(24, 400)):
